@@ -564,6 +564,7 @@ def run(ctx):
     rwg_tables(ctx, B, pts)
     bc_reference_edge(ctx, B)
     bary_inherit(ctx)
+    bary_family(ctx)
     compat(ctx)
 
 
@@ -634,6 +635,41 @@ def bary_inherit(ctx):
     bad = ast.parse("def f(coarse_space):\n    s = _np.zeros(9)\n    return SpaceBuilder(coarse_space.grid.barycentric_refinement).set_support(s).set_normal_multipliers(_np.tile(coarse_space.normal_multipliers, 6)).build()").body[0]
     g, d, _ = _builder_chains(bad)[0]
     r.must_fire(re.fullmatch(r"_np\.repeat\((.+)\.normal_multipliers,6\)", roles.canon(d["set_normal_multipliers"], roles.Defs(bad)).replace(" ", "")) is None, "tile instead of repeat")
+
+
+def bary_family(ctx):
+    """The barycentric representation registered by a coarse space is a space of the same family: same identifier,
+    codomain dimension, polynomial order and evaluator / gradient functions (the data-independent part of
+    'represents the same functions')."""
+    r = ctx.rule("BARY-SAME-FAMILY", "a space and its barycentric representation agree in identifier, codomain dimension, order, numba evaluator and surface gradient", 4)
+    chains = {}
+    for rel in (SS, DS, MS):
+        m = ctx.repo.mod(rel)
+        for qn, fn in m.functions.items():
+            if "." in qn or "<" in qn:
+                continue
+            cs = _builder_chains(fn)
+            if len(cs) == 1:
+                defs = roles.Defs(fn)
+                chains[qn] = (rel, fn, {k: (roles.canon(v, defs).replace(" ", "") if v is not None else None) for k, v in cs[0][1].items()})
+    n = 0
+    for qn, (rel, fn, d) in sorted(chains.items()):
+        tgt = d.get("set_barycentric_representation")
+        if tgt is None:
+            continue
+        n += 1
+        if tgt not in chains:
+            r.fail(qn, rel, qn, fn.lineno, "barycentric representation of " + qn, "registered barycentric representation `%s` is not a space constructor" % tgt)
+            continue
+        b = chains[tgt][2]
+        diff = []
+        for key in ("set_identifier", "set_codomain_dimension", "set_order", "set_numba_evaluator", "set_numba_surface_gradient"):
+            if d.get(key) != b.get(key):
+                diff.append("%s: %s vs %s" % (key[4:], d.get(key), b.get(key)))
+        r.check(not diff and b.get("set_is_barycentric") == "True", "%s -> %s" % (qn, tgt), chains[tgt][0], tgt, chains[tgt][1].lineno, "family of %s vs %s" % (qn, tgt),
+                "the barycentric representation differs from the coarse space in: %s" % "; ".join(diff))
+    if n < 4:
+        raise AnalysisError("only %d spaces register a barycentric representation (4 confirmed by hand)" % n)
 
 
 def _bc_tables(ctx, pos_nm, pos_sup, why):
